@@ -58,6 +58,9 @@ def catalogue():
                 out.append(wrap(chain, [["loop", 0, [["accAtomic", 0, ATOM]]]]))
                 out.append(wrap(chain, [["ompAtomic", 0, [["stmt", 0, []]]]]))
                 out.append(wrap(chain, [["accAtomic", 0, ATOM + ATOM]]))
+                out.append(wrap(chain, [["codeBlock", 0, []]] + NEST2))
+                out.append(wrap(chain, [["loop", 0, [["loop", 0, [["codeBlock", 0, []]]]]]]))
+                out.append(wrap(chain, [["accAtomic", 0, [["codeBlock", 0, []]]]]))
                 out.append(wrap(chain, [["ompDeclareTarget", 0, []]] + NEST2))
                 out.append(wrap(chain, [["accRoutine", 0, []]] + NEST2))
                 out.append([["accRoutine", 0, []]] + wrap(chain, NEST2))
@@ -141,7 +144,9 @@ def gen():
         t.append("]\n")
     t.append("def ctableOk (f : Container → Outcome) : Bool :=")
     t.append("  " + " &&\n  ".join("ctable%d.all (fun p => f p.1 == p.2)" % i for i in range(len(cchunks))))
-    t.append("\ndef ctableSize : Nat := %d" % len(crows))
+    t.append("\ndef ctableSize : Nat := %d\n" % len(crows))
+    from props import c10_introspect
+    t.append(c10_introspect.lean_text())
     t.append("end %s.Gen\n" % NS)
     return {"PsyVerif/Gen/%s.lean" % MODEL: "\n".join(t)}
 
@@ -250,7 +255,7 @@ def strip(forest):
     """Drop every directive below (keep loops/statements): isolates the top node's own rule."""
     out = []
     for k, c, ch in forest:
-        if k in ("stmt", "block", "loop"):
+        if k in ("stmt", "astmt", "codeBlock", "block", "loop"):
             out.append([k, c, strip(ch)])
         else:
             out += strip(ch)
@@ -510,7 +515,7 @@ def run(chk):
         agreed = (norm(it.val) == m["writer"])
         # the writer validates the lowered copy: it can only be stricter than the sweep
         consistent = not (it.wout == "accept" and it.val != "accept")
-        nontriv = any(k not in ("stmt", "astmt", "block", "loop") for f in it.forest for k in R.kinds_in(f))
+        nontriv = any(k not in ("stmt", "astmt", "codeBlock", "block", "loop") for f in it.forest for k in R.kinds_in(f))
         chk.case({"container": it.forest}, nontrivial=nontriv, agreed=agreed and consistent)
         dist["writer_" + norm(it.wout)] += 1
         gf = None
